@@ -252,3 +252,8 @@ PROPS["C15"] = dict(
                               "data races on non-atomic memory cannot be exhibited by the model; they are only sampled at run time"],
     trusted=MEM_TRUSTED + ["the Rust memory model, `unsafe impl Send/Sync for Iter`, transmute of the function pointer"],
 )
+
+# emulated NEON / simd128 builds join the thorough tier of the properties whose cases reach architecture-specific code
+for _p in ("C01", "C02", "C06", "C07", "C09", "C11", "C12", "C03", "C04", "C10"):
+    PROPS[_p]["emu"] = ["neon", "simd128"]
+PROPS["C09"]["emu_quick"] = True
